@@ -1,10 +1,121 @@
 import PhysisModel.Base.Proto
+import PhysisModel.Model.Race
+import PhysisModel.Model.Paths
+import PhysisModel.Spec.Paths
 namespace Physis.Driver.C15
-open Physis Physis.Proto
+open Physis Physis.Proto Physis.Paths
 
-/-- one case line in, one answer line out (see `Base/Proto.lean`) -/
-def handle (line : String) : String :=
+def bstr (b : Bytes) : String := String.ofList (b.map (fun c => Char.ofNat c.toNat))
+
+def showOpt : Option Nat → String
+  | some c => s!"some:{c}"
+  | none => "none"
+
+/-- insertion sort with the implementation's comparator (model of `Vec::sort` + `Ord`) -/
+def insertBy (cmp : Repo → Repo → Ordering) (x : Repo) : List Repo → List Repo
+  | [] => [x]
+  | y :: ys => if cmp x y == .gt then y :: insertBy cmp x ys else x :: y :: ys
+def sortBy (cmp : Repo → Repo → Ordering) (l : List Repo) : List Repo := l.foldr (insertBy cmp) []
+
+def repoOf (n : Nat) : Repo := if n = 0 then none else some n
+def repoNameOf : Repo → String
+  | none => "ffxiv"
+  | some n => s!"ex{n}"
+
+def specSort (l : List Repo) : List Repo :=
+  sortBy (fun a b => compare (Spec.Paths.repoKey a) (Spec.Paths.repoKey b)) l
+
+def names (l : List Repo) : String := ",".intercalate (l.map repoNameOf)
+
+def nats (fs : List String) : Option (List Nat) := fs.mapM (·.toNat?)
+
+def handleCase (line : String) : String :=
   match fields line with
+  | "tribes" :: fs =>
+    match nats fs with
+    | some [r] =>
+      let (a, b) := Spec.Paths.ownTribes r
+      let m := match Race.supportedTribes r with | some (x, y) => s!"{x},{y}" | none => "none"
+      if 1 ≤ r ∧ r ≤ 8 then answer "=" s!"{a},{b}" [] (some m) else bad
+    | _ => bad
+  | "race" :: fs =>
+    match nats fs with
+    | some [r, t, g] =>
+      -- the property does not fix the numeric code: the expected answer is the model's; on a
+      -- mismatch the judge checks "defined exactly on valid triples" and the table theorems decide
+      answer "=" (showOpt (Race.raceId r t g)) (if decide (Spec.Paths.validTriple r t g) then [] else ["triv"])
+    | _ => bad
+  | "skel" :: fs =>
+    match nats fs with
+    | some [r, t, g] =>
+      match Race.raceId r t g with
+      | some c => answer "=" (bstr (skeletonPath c))
+      | none => bad
+    | _ => bad
+  | "char" :: fs =>
+    match nats fs with
+    | some [k, ver, r, t, g] =>
+      match Race.raceId r t g, charCategory k with
+      | some c, some cat => answer "=" (bstr (characterPath cat ver c))
+      | _, _ => bad
+    | _ => bad
+  | "equip" :: fs =>
+    match nats fs with
+    | some [id, r, t, g, s] =>
+      match Race.raceId r t g, slotAbbrev s with
+      | some c, some a =>
+        let d := match deconstruct (equipmentFile id c a) with
+          | some (i, s') => s!"some:{i},{s'}"
+          | none => "none"
+        -- specification: the id and slot read back are the ones the path was built from
+        answer "=" (bstr (equipmentPath id c a) ++ s!" some:{id},{s}") [] (some (bstr (equipmentPath id c a) ++ " " ++ d))
+      | _, _ => bad
+    | _ => bad
+  | "names" :: fs =>
+    match nats fs with
+    | some [cat, ex, chunk, p, dat] =>
+      match platformString p with
+      | some tag =>
+        let folder := bstr (repoName ex)
+        let spec := s!"{folder}/{bstr (Spec.Paths.indexName cat ex chunk tag)},{folder}/{bstr (Spec.Paths.index2Name cat ex chunk tag)},{folder}/{bstr (Spec.Paths.datName cat ex chunk tag dat)}"
+        let rd := s!"{folder}/{bstr (indexFilename cat ex chunk tag)},{folder}/{bstr (index2Filename cat ex chunk tag)},{folder}/{bstr (datFilename cat ex chunk tag dat)}"
+        let sub := ex * 256 + chunk
+        let pf := bstr (patchFolder sub)
+        let pt := s!"{pf}/{bstr (patchIndexFilename cat sub tag 0)},{pf}/{bstr (patchIndexFilename cat sub tag 2)},{pf}/{bstr (patchDatFilename cat sub tag dat)}"
+        answer "=" s!"read={spec} patch={spec}" [] (some s!"read={rd} patch={pt}")
+      | none => bad
+    | _ => bad
+  | [op, l] =>
+    if op != "sort" && op != "discover" then bad else
+    match natList l with
+    | some ns =>
+      let rs := ns.map repoOf
+      answer "=" (names (specSort rs)) [] (some (names (sortBy repoCmp rs)))
+    | none => bad
   | _ => bad
+
+/-- property predicate on the implementation's own answer, for cases where the property does not
+fix the answer uniquely -/
+def judge (case actual : String) : String :=
+  match fields case with
+  | "race" :: fs =>
+    match nats fs with
+    | some [r, t, g] =>
+      let valid := decide (Spec.Paths.validTriple r t g)
+      let defined := actual.startsWith "some:"
+      if (valid && defined) || (!valid && actual == "none") then "ok" else "fail"
+    | _ => "fail"
+  | "equip" :: fs =>
+    match nats fs with
+    | some [id, _, _, _, s] => if (actual.splitOn " ").getLast? == some s!"some:{id},{s}" then "ok" else "fail"
+    | _ => "fail"
+  | "skel" :: _ => if actual.startsWith "panic" then "fail" else "ok"
+  | "char" :: _ => if actual.startsWith "panic" then "fail" else "ok"
+  | _ => "fail"
+
+def handle (line : String) : String :=
+  match line.trimAscii.toString.splitOn "\t" with
+  | ["JUDGE", case, actual] => "=\t" ++ judge case actual
+  | _ => handleCase line
 
 end Physis.Driver.C15
